@@ -4,6 +4,7 @@ C14 — Chunk buffers are handed over exclusively between worker and I/O thread.
 import Wencry.Proofs.PipeCtl
 import Wencry.Proofs.PipeData
 import Wencry.Proofs.PipeSpurious
+import Wencry.Proofs.PipeFine
 namespace Wencry.Props.C14
 open Wencry Wencry.Model.Pipe Wencry.Model.IoBuffer Wencry.Proofs.PipeCtl Wencry.Proofs.PipeProgress Wencry.Proofs.PipeData
 
@@ -58,5 +59,18 @@ theorem each_chunk_to_its_owner_in_order_with_spurious_wakeups (f : σ → Block
   (Proofs.PipeSpurious.final_output_S f inp hwf ispad P T hT hP ws0 s h hd).2 i hi
 
 end spurious
+
+/-! ### At the level of the mutex and condition-variable operations (Model/PipeFine.lean) -/
+section fine
+open Wencry.Model.PipeFine
+
+/-- the ownership flag is never raised under any schedule of the mutex-level system, and the mutex discipline holds: the mutex of buffer
+    i is held exactly by a thread that is inside one of its critical sections for buffer i -/
+theorem no_overlapping_access_at_mutex_level (f : σ → Block → σ × Block) (inp : Input) (hwf : inp.WF) (ispad : Bool) (P T : Nat)
+    (hT : 0 < T) (hP : FirstNonFull inp P) (ws0 : Nat → σ) (s : FSt σ) (h : FReach f inp ispad T ws0 s) :
+    s.d.viol = false ∧ Proofs.PipeFine.LockInv T s :=
+  ⟨(Proofs.PipeFine.fine_safety f inp hwf ispad P T hT hP ws0 s h).1, (Proofs.PipeFine.freach_inv f inp hwf ispad T hT ws0 s h).1⟩
+
+end fine
 
 end Wencry.Props.C14
